@@ -122,6 +122,11 @@ bool supla_esp_board_calcfg_request(TSD_DeviceCalCfgRequest *request) {
 
 /* ---- nettle recording stub ---- */
 int sdk_verify_result = 0;
+/* signature oracle: when armed, "the RSA signature verifies" iff exactly the signed body and the
+ * signature bytes issued for it were presented (idealised RSA-SHA256) */
+int fw_verify_oracle = 0;
+unsigned long long fw_verify_len = 0;
+uint32_t fw_verify_hfnv = 0, fw_verify_sfnv = 0;
 static unsigned long long hash_len = 0;
 static uint32_t hash_fnv = 2166136261u;
 static uint32_t sig_fnv = 0;
@@ -151,9 +156,10 @@ void mpz_set_ui(mpz_t x, unsigned long int y) {}
 void mpz_init(mpz_t x) {}
 int nettle_rsa_sha256_verify(const struct rsa_public_key *key,
                              struct sha256_ctx *hash, const mpz_t signature) {
-  sdk_out("VERIFY hashed=%llu hfnv=%08x sfnv=%08x -> %d", hash_len, hash_fnv,
-          sig_fnv, sdk_verify_result);
-  return sdk_verify_result;
+  int r = sdk_verify_result;
+  if (fw_verify_oracle) r = hash_len == fw_verify_len && hash_fnv == fw_verify_hfnv && sig_fnv == fw_verify_sfnv;
+  sdk_out("VERIFY hashed=%llu hfnv=%08x sfnv=%08x -> %d", hash_len, hash_fnv, sig_fnv, r);
+  return r;
 }
 void mpz_clear(mpz_t x) {}
 void nettle_rsa_public_key_clear(struct rsa_public_key *key) {}
